@@ -25,4 +25,14 @@ def run(ctx):
                     r["trees"], r["trees"], not r["problems"])
     for p in r["problems"][:5]:
         ctx.fail("C02.bounded.enumeration[%s]" % p[:90], p, {"problem": p}, True)
-    ctx.samples.append({"bounded_trees": r["trees"]})
+    r2 = BL.constraint_at_switch()
+    bad = [x for x in r2 if x["defect"] > 1e-6 or not x["finite"]]
+    ctx.add_bounded("trees that violate the sum constraint, one grid point below the switch to the FFT path and at it, vs a log-space evaluation of the defining sums",
+                    "2 tree shapes (two top-level clones with CCFs adding up to more than one; two children exceeding their parent) x 2 densities x G in {999, 1000}; "
+                    "entries within 1e-6 of the exact row peak", len(r2), len(r2), not bad, "G = 1000: recorded finding K03")
+    for x in bad:
+        ctx.fail("C02.bounded.constraint-at-switch|%s|%s|G=%d" % (x["scenario"], x["density"], x["grid"]),
+                 "root vector differs from the exact constrained sum by %.4g nats inside the 1e-6 window of the row peak (at the peak: reported %.6f, exact %.6f)%s"
+                 % (x["defect"], x["reported_at_peak"], x["exact_peak"], "" if x["finite"] else "; non-finite values"),
+                 dict(x, replay="bounded.likelihood.constraint_at_switch()"), True)
+    ctx.samples.append({"bounded_trees": r["trees"] + len(r2)})
